@@ -11,6 +11,7 @@ from . import build
 from .common import SAN_ENV, unesc, unI, san_summary
 
 EPS = 0.0025          # libev's 1 ms minimum block + the harness's wake latency
+TICK = 0.001
 
 
 def epoch(u):
@@ -221,16 +222,12 @@ def check_schedule(events, incarnations, t_end, part_violation, sig_prefix=""):
         if len(due) > 1:
             stats["collapsed_runs"] += 1
         o = due[0]
-        # on time: the first loop iteration at or after o (or the one after it, for an exact tie)
-        k = bisect.bisect_left(iters, o - 1e-9)
-        ok_times = iters[k:k + 2]
-        # iterations that share one time stamp count as one
-        j = k
-        while j < len(iters) and len(set(ok_times)) < 2:
-            j += 1
-            ok_times = iters[k:j + 1]
-        if not any(abs(s - t) < 1e-6 for t in ok_times):
-            part_violation("run-late", "%s: occurrence %.3f served at %.6f, the loop was awake at %s before" % (uid, o, s, ok_times[:2]))
+        # on time: the loop must not have been awake a timer tick (1 ms, libev's granularity; its clock is a
+        # double that cannot tell microseconds apart at this magnitude, and a timer due exactly "now" waits
+        # for the next turn) past the occurrence without serving it
+        k = bisect.bisect_left(iters, o + TICK)
+        if k < len(iters) and iters[k] < s - 1e-6:
+            part_violation("run-late", "%s: occurrence %.3f served at %.6f although the loop was awake at %.6f" % (uid, o, s, iters[k]))
         if s - o > 1.0:
             stats["late_runs"] += 1
     # completeness
